@@ -1065,7 +1065,12 @@ class PseudoNetCDFFile(PseudoNetCDFSelfReg, object):
                         isinstance(cand, (PseudoNetCDFVariable,
                                           NetCDFVariable)) and
                         cand is not val and
-                        tuple(cand.shape) == tuple(np.shape(val))
+                        tuple(cand.shape) == tuple(np.shape(val)) and
+                        # (an intermediate result may itself carry labels
+                        # that do not fit it)
+                        tuple(len(self.dimensions[dk])
+                              if dk in self.dimensions else -1
+                              for dk in cand.dimensions) == tuple(cand.shape)
                     ):
                         vdimt = cand.dimensions
                         break
